@@ -72,7 +72,7 @@ func (e *Exec) isStub(fn *ssa.Function) bool {
 }
 
 func (e *Exec) stubFor(fn *ssa.Function) (stubFn, bool) {
-	name := fn.String()
+	name := fnName(fn)
 	if s, ok := stubs[name]; ok {
 		return s, true
 	}
@@ -110,10 +110,10 @@ func (e *Exec) invoke(t *Thread, f *Frame, clo *Closure, args []Value, call *ssa
 		return finish(res)
 	}
 	if r := e.redirect(clo.Fn); r != nil {
-		e.Stats.Stubs[clo.Fn.String()+" -> "+r.Name()] = true
+		e.Stats.Stubs[fnName(clo.Fn)+" -> "+r.Name()] = true
 		clo = &Closure{Fn: r}
 	}
-	if clo.Fn.String() == "(*sync.Once).Do" {
+	if fnName(clo.Fn) == "(*sync.Once).Do" {
 		o := e.syncObj(args[0].(Ptr))
 		if !granted {
 			t.pend = &pending{kind: pkOnce, mu: o}
@@ -147,7 +147,7 @@ func (e *Exec) invoke(t *Thread, f *Frame, clo *Closure, args []Value, call *ssa
 		return stCont
 	}
 	if s, ok := e.stubFor(clo.Fn); ok {
-		e.Stats.Stubs[clo.Fn.String()] = true
+		e.Stats.Stubs[fnName(clo.Fn)] = true
 		res, ok := s(e, t, args, granted)
 		if !ok {
 			if undo != nil {
@@ -191,7 +191,7 @@ var redirects = map[string]string{
 }
 
 func (e *Exec) redirect(fn *ssa.Function) *ssa.Function {
-	to, ok := redirects[fn.String()]
+	to, ok := redirects[fnName(fn)]
 	if !ok || fn.Pkg == nil {
 		return nil
 	}
